@@ -136,7 +136,7 @@ End Wrapper.
 (* the wrapper around a member of the F-quad family written in the layout the module receives *)
 Definition fq_scores (ks : list qclass) := wrapper_scores (fquad_out ks).
 Definition fq_outputs (ks : list qclass) := wrapper_call (fquad_out ks).
-Definition fq_gradients (ks : list qclass) := wrapper_gradients (fquad_out ks) (fquad_grad ks).
+Definition fq_gradients (ks : list qclass) := wrapper_gradients (fquad_grad ks).
 
 (* the F-quad member with its parameters moved from NCHW to NHWC positions: sigma = NHWC index read by NCHW position,
    tau = its inverse (NCHW index read by NHWC position) *)
